@@ -85,8 +85,18 @@ func HarnessSnapshotOverlap() {
 	}
 	msg := vString("msg", 2)
 	done := 0
+	// the first command either drains before it snapshots (stop) or goes straight to its snapshot (resume of a
+	// service paused beforehand): the latter overlaps the two snapshots within a smaller scheduling budget
+	firstResumes := vChoose("first_command_resumes", 2) == 1
+	if firstResumes {
+		vAssert(r.PauseService("a", 0, 1000) == nil, "overlap: initial pause")
+	}
 	go func() {
-		r.StopService("a", 0, msg)
+		if firstResumes {
+			r.ResumeService("a")
+		} else {
+			r.StopService("a", 0, msg)
+		}
 		done++
 	}()
 	removeB := vChoose("second_command_removes", 2) == 1
@@ -104,7 +114,9 @@ func HarnessSnapshotOverlap() {
 	vAssert(next.RestoreLastSavedState() == nil, "overlap: the state file restores")
 	a, b := next.services.Get("a"), next.services.Get("b")
 	vAssert(a != nil, "overlap: the first service is in the file")
-	if a != nil {
+	if a != nil && firstResumes {
+		vAssert(a.pauseController.GetState() == PauseStateRunning, "overlap: once both commands returned the file has the first command's effect")
+	} else if a != nil {
 		vAssert(a.pauseController.GetState() == PauseStateStopped && a.pauseController.StopMessage == msg, "overlap: once both commands returned the file has the first command's effect")
 	}
 	if removeB {
@@ -133,6 +145,18 @@ func stubMutexLockDirected(mu *sync.Mutex) {
 		vBlockUntil(func() bool { return vRelease })
 	}
 	mu.Lock()
+}
+
+// (an implementation that only tries the snapshot lock is held at the same point)
+//
+//verif:stub (*sync.Mutex).TryLock harness=HarnessSnapshotOverlapDirected
+func stubMutexTryLockDirected(mu *sync.Mutex) bool {
+	if vSnapshotLockOf != nil && mu == &vSnapshotLockOf.snapshotLock && !vSnapshotLockHeldOnce && vGoTag == "first" {
+		vSnapshotLockHeldOnce = true
+		vHeld++
+		vBlockUntil(func() bool { return vRelease })
+	}
+	return mu.TryLock()
 }
 
 var vGoTag string
